@@ -139,28 +139,32 @@ def run(R):
         out["kinds"][kind] = out["kinds"].get(kind, 0) + 1
         one_case(R, H, M, tree, s, nn, out, kind)
     # CLI level
+    cli_ok = 0
     for i in range(7 if R.tier == "quick" else 70):
         tree, s, nn, kind = scenario(g, i)
         with cli.Sandbox(tree) as sb:
             before = sb.snapshot()
+            bd = al.tree_dict(sb.tree_entries())
+            rcp, op, ep = sb.run(["--no-auto-init", "plan", s, nn, "--dry-run", "--output", "json", "--quiet"])
+            try:
+                plan = al.relativize(json.loads(op.decode("utf-8"))["plan"] if b'"plan"' in op[:200] else json.loads(op.decode("utf-8")), sb.root)
+            except Exception:
+                plan = {"matches": [], "paths": []}
             rc, o, e = sb.run(["--no-auto-init", "-y", "rename", s, nn])
             after = sb.snapshot()
+            ad = al.tree_dict(sb.tree_entries())
             R.case(("cli", kind, s, nn, repr(sorted(before))), nontrivial=True)
-            hb = sorted(v[2] for v in before.values() if v[0] == "f")
-            ha = sorted(v[2] for v in after.values() if v[0] == "f")
-            # files whose content does not contain the term must survive byte for byte
-            keep = [sb_e for sb_e in tree if sb_e.get("k", "f") == "f" and s.encode() not in sb_e.get("c", b"")]
-            for e2 in keep:
-                hh = hashlib.sha256(e2["c"]).hexdigest()
-                if hh not in ha:
-                    out["fail"].append({"why": f"CLI rename lost the content of {e2['p']}", "rc": rc, "kind": kind,
-                                        "tree": cli.tree_json(tree), "search": s, "replace": nn,
-                                        "stderr": e.decode("utf-8", "replace")[-300:]})
-                    break
+            cli_ok += rc == 0
+            lost = lost_nodes(bd, ad, plan) if plan.get("matches") is not None else []
+            if lost:
+                out["fail"].append({"why": f"CLI rename lost pre-existing entries: {lost[:4]}", "rc": rc, "kind": kind,
+                                    "tree": cli.tree_json(tree), "search": s, "replace": nn,
+                                    "stderr": e.decode("utf-8", "replace")[-300:]})
             if rc != 0 and after != before and kind in (0, 1, 2, 3, 5):
                 out["fail"].append({"why": "CLI rename was refused but the tree changed", "rc": rc, "kind": kind,
                                     "tree": cli.tree_json(tree), "search": s, "replace": nn,
                                     "diff": repr(cli.diff_snap(before, after))[:800]})
+    R.coverage["cli_runs_succeeded"] = cli_ok
     H.close()
     M.close()
     R.coverage["input_distribution"] = {"occupied_cases": out["occupied_cases"], "refused_at_plan_time": out["plan_refused"],
